@@ -58,9 +58,12 @@ def run(chk):
                 return {"key": "table-size", "entries": len(ents)}
         return None
 
+    ph = halfcorr.Phases(chk)
     okd, out = halfcorr.build_driver()
+    ph.mark("lake build drv_half (incl. waiting for the shared lean lock)")
     chk.oblige("build:drv_half", "build", okd, None if okd else out[-800:])
     chk.check_theorems("ImathVerif.Props.C01", required=REQUIRED, search=search)
+    ph.mark("check_theorems (lake build incl. lock wait, axiom audit)")
     halfcorr.check_statement_pins(chk, os.path.join(lib.LEAN, "ImathVerif", "Props", "C01.lean"), "statements_c01.json", "C01")
     if chk.thorough:
         chk.leanchecker("ImathVerif.Props.C01")
@@ -72,6 +75,7 @@ def run(chk):
     if have_f16c:
         jobs.append(dict(name="c01_f16c", sources=["corr/half_corr.cpp", HALF_CPP], extra=["-mf16c"]))
     res = lib.cxx_build_many(jobs)
+    ph.mark("harness builds")
     ok, binary, o = res["half_corr_table"]
     chk.oblige("build:half_corr(default config)", "build", ok, None if ok else o[-800:])
     if not ok:
@@ -94,6 +98,7 @@ def run(chk):
         chk.fail("build:notable", "C01:build:notable", "half.h does not compile with IMATH_HALF_NO_LOOKUP_TABLE", {"compiler_output": on[-3000:]}, False)
     else:
         halfcorr.compare_config(chk, "notable", binn, "C01", apis=("c", "cxx", "asg"), model_blocks=model_blocks, model_h2f=model_h2f)
+    ph.mark("model passes + table/notable sweeps")
     # (c) the same binary under the directed rounding modes
     t = time.time()
     chk.extra["rounding_modes"] = halfcorr.rounding_sweep(chk, "table", binary, "C01", model_blocks, model_h2f,
@@ -136,11 +141,13 @@ def run(chk):
             chk.extra["rounding_modes_f16c"] = halfcorr.rounding_sweep(chk, "f16c", binf, "C01", mc, hc, apis=("c", "cxx", "asg"),
                                                                        canon=True, seed=chk.seed, exhaustive=chk.thorough, f16c=True)
             chk.extra["f16c_s"] = round(time.time() - t, 1)
+    ph.mark("rounding modes + fpexc + f16c")
     # (e) independent Python spec vs the model
     t = time.time()
     sb = halfcorr.sample_blocks(chk.seed, 1021 if not chk.thorough else 61)
     halfcorr.compare_spec_model(chk, "C01", model_blocks, model_h2f, sb)
     chk.extra["spec_vs_model"] = {"blocks": len(sb), "seconds": round(time.time() - t, 1)}
+    ph.mark("spec-vs-model")
     chk.sample({"float_bits": "0x38801000", "spec_rne16": "0x%04x" % halfspec.spec_f2h(0x38801000), "note": "tie, even significand"})
     chk.sample({"float_bits": "0x477ff000", "spec_rne16": "0x%04x" % halfspec.spec_f2h(0x477ff000), "note": "65520 -> inf"})
     chk.sample({"float_bits": "0x33000001", "spec_rne16": "0x%04x" % halfspec.spec_f2h(0x33000001), "note": "just above 2^-25"})
